@@ -449,6 +449,10 @@ func (ex *Exec) step(st *State, fr *Frame, in ssa.Instruction, work *[]*State) {
 			return
 		}
 		s2 := st.clone()
+		if ps := posString(ex.P.SSA.Fset, x.Cond.Pos()); ps != "" {
+			st.Trace = append(st.Trace, ps+":T")
+			s2.Trace = append(s2.Trace, ps+":F")
+		}
 		st.assumeBranch(c)
 		ex.gotoBlock(st, fr, t)
 		s2.assumeBranch(Not(c))
